@@ -172,8 +172,17 @@ def run(ctx):
         n_zero += 1
         ts = tests_on(wi, p)
         for y in [o for o in p.ops if o.kind == 'yield']:
-            v = txt(wi.expand(y.val)) if y.val is not None else None
-            if not any(t == v and truth and x.seq < y.seq for t, truth, x in ts) and bad0 is None:
+            ve = wi.expand(y.val) if y.val is not None else None
+            v = txt(ve) if ve is not None else None
+            seen = any(t == v and truth and x.seq < y.seq for t, truth, x in ts)
+            if not seen and isinstance(ve, ast.Subscript) and isinstance(ve.slice, ast.Slice) and ve.slice.upper is None and \
+                    ve.slice.step is None and ve.slice.lower is not None:
+                # X[A:] is non-empty exactly when A < len(X) (A >= 0): the length test does as well as the truth test
+                A, L = txt(ve.slice.lower), 'len(%s)' % txt(ve.value)
+                yes = ('%s < %s' % (A, L), '%s > %s' % (L, A))
+                no = ('%s >= %s' % (A, L), '%s <= %s' % (L, A))
+                seen = any(x.seq < y.seq and ((t in yes and truth) or (t in no and not truth)) for t, truth, x in ts)
+            if not seen and bad0 is None:
                 bad0 = (p, y)
     if n_zero == 0:
         ctx.unknown('T10.empty', isl.fq, 'no path on which the scan loop finds no line break', isl.loc)
@@ -209,14 +218,24 @@ def run(ctx):
             n_emit += 1
             buf = txt(sp[0].val.func.value)
             ok = False
+            def _atoms(e, truth):
+                # a named condition stands for its value; a true conjunction makes every conjunct true, a false disjunction every
+                # disjunct false
+                e = wr0.expand(e) if isinstance(e, ast.Name) else e
+                while isinstance(e, ast.UnaryOp) and isinstance(e.op, ast.Not):
+                    e, truth = e.operand, not truth
+                if isinstance(e, ast.BoolOp) and ((isinstance(e.op, ast.And) and truth) or (isinstance(e.op, ast.Or) and not truth)):
+                    out = []
+                    for v in e.values:
+                        out += _atoms(v, truth)
+                    return out
+                return [(e, truth)]
+            atoms_ = []
             for o in seg:
                 if o.kind != 'test' or o.seq > ys[-1].seq:
                     continue
-                e = o.val
-                neg = False
-                while isinstance(e, ast.UnaryOp) and isinstance(e.op, ast.Not):
-                    e, neg = e.operand, not neg
-                truth = (o.info is True) != neg
+                atoms_ += _atoms(o.val, o.info is True)
+            for e, truth in atoms_:
                 t = txt(e)
                 first = '%s[0]' % tok[0]
                 if t == first and truth:
